@@ -332,14 +332,22 @@ func TestConvergence(t *testing.T) {
 			fp = fr + 2*nVal + 1 + rapid.IntRange(1, 12).Draw(t, "far") // beyond two rounds: block sync
 		}
 		upToDate := rapid.IntRange(0, 1).Draw(t, "upToDate") == 0
-		if rapid.IntRange(0, 3).Draw(t, "scenario") == 0 {
+		scen := rapid.IntRange(0, 5).Draw(t, "scenario")
+		boundary := false
+		if scen == 0 {
 			// directed: the better chain is the shorter one, both nodes up to date, fork within reach of fast sync
 			selfish, upToDate = true, true
 			fr = rapid.IntRange(3, 2*nVal-2).Draw(t, "forkR2")
 			fp = rapid.IntRange(2, fr-1).Draw(t, "forkP2")
 		}
+		if (scen == 1 || scen == 2) && nVal >= 4 {
+			// directed: the requester's own fork is grown (every validator voting) until its finalized block IS the fork point:
+			// the highest common block the protocol still allows to switch at
+			boundary, selfish, upToDate = true, false, false
+			fr = 2*nVal - 2
+		}
 		gapR := 2
-		if selfish {
+		if selfish || boundary {
 			gapR = 1
 		}
 		cfgR := node.Config{Genesis: node.EqualGenesis(nVal), BatchSize: nVal, ListenAddr: listenAddr(base)}
@@ -378,6 +386,10 @@ func TestConvergence(t *testing.T) {
 		}
 		hist = append(hist, fmt.Sprintf("shared prefix %d blocks, finalized R=%d, selfish=%v upToDate=%v", prefix, R.Finalized(), selfish, upToDate))
 		for i := 0; i < fr; i++ {
+			if boundary && R.Finalized() >= uint32(prefix) {
+				fr = i
+				break
+			}
 			spec := node.Spec{SlotGap: gapR, Script: node.Script{Salt: 50 + uint32(i)}}
 			if selfish {
 				mhg := R.Tip().Header.Height
@@ -385,6 +397,12 @@ func TestConvergence(t *testing.T) {
 			}
 			if _, err := R.Apply(spec); err != nil {
 				t.Fatalf("R fork: %v", err)
+			}
+		}
+		if boundary {
+			fp = fr + rapid.IntRange(1, 3).Draw(t, "boundaryAhead")
+			if fp > 2*nVal {
+				fp = 2 * nVal
 			}
 		}
 		for i := 0; i < fp; i++ {
@@ -473,7 +491,8 @@ func TestConvergence(t *testing.T) {
 		evid.R.Case(strings.Join(hist, "|"), fr >= 2 && converged, func() any {
 			return map[string]any{"kind": "convergence", "history": hist, "mode": mode, "converged": converged, "err": fmt.Sprint(perr)}
 		}, "convergence", "mode-"+mode, fmt.Sprintf("converged-%v", converged), fmt.Sprintf("better-%v", better),
-			fmt.Sprintf("better-with-lower-tip-%v", better && ptip.Header.Height < rt.Height), fmt.Sprintf("up-to-date-%v", upToDate))
+			fmt.Sprintf("better-with-lower-tip-%v", better && ptip.Header.Height < rt.Height), fmt.Sprintf("up-to-date-%v", upToDate),
+			fmt.Sprintf("common-block-is-the-finalized-block-%v", uint32(prefix) == Fbefore))
 	})
 }
 
